@@ -201,10 +201,18 @@ func c14GenScenario(rnd *vRand, tier string, idx int) *c14Scenario {
 	// ... and two asking for the comment / downtime lists of hosts and services, directly, through reference columns
 	// and through the by-group tables
 	sc.Clients = append(sc.Clients, []string{"svclists", "virtcols", "comlists"}, []string{"bygrouplists", "downlists", "svclists", "virtcols"})
+	// ... and two that wait for a check result which arrives during the wait (two requests for one object at a time)
+	sc.Waits = idx%3 == 2
+	if sc.Waits {
+		sc.Clients = append(sc.Clients, []string{"waitrealhost", "waitrealsvc"}, []string{"waitrealsvc", "waitrealhost"}, []string{"waitrealhost"})
+	}
 	for range 3 + rnd.intn(5) {
 		kind := vPick(rnd, c14UpdaterKinds)
 		if sc.Epochs && kind == "idle" {
 			kind = "delta"
+		}
+		if sc.Waits && (kind == "downup" || kind == "broken" || kind == "idle") {
+			kind = vPick(rnd, []string{"rebuild", "restart", "delta", "full"})
 		}
 		sc.Updaters = append(sc.Updaters, kind)
 	}
@@ -370,14 +378,18 @@ func c14Coq(idx int, obs *c14Obs) string {
 		races[i] = coqStr(report.Pair)
 	}
 	bad := len(res.Malformed) + len(res.Incomplete) + len(res.FilterViol) + len(res.Future)
+	waits := make([]string, len(res.WaitObs))
+	for i, wo := range res.WaitObs {
+		waits[i] = c14CoqZList(wo)
+	}
 	lists := make([]string, len(res.ListObs))
 	for i, lo := range res.ListObs {
 		lists[i] = fmt.Sprintf("(%s, %s, %s)", c14CoqZList(lo[0]), c14CoqZList(lo[1]), c14CoqZList(lo[2]))
 	}
 
-	return fmt.Sprintf("Definition c%d : case := mkCase %s\n  %s\n  %s\n  %s\n  %s\n  %d%%nat %s %d%%nat %s\n  %s.\n", idx,
+	return fmt.Sprintf("Definition c%d : case := mkCase %s\n  %s\n  %s\n  %s\n  %s\n  %d%%nat %s %d%%nat %s\n  %s\n  %s.\n", idx,
 		coqList(orders), c14CoqZLists(res.StampVecs), c14CoqZLists(res.SetVecs), c14CoqZLists(res.Stats), c14CoqZLists(res.Sums),
-		bad, coqList(races), res.Deadlocks, coqBool(obs.crash != ""), coqList(lists))
+		bad, coqList(races), res.Deadlocks, coqBool(obs.crash != ""), coqList(lists), coqList(waits))
 }
 
 func c14RaceMain(args []string) int {
@@ -511,6 +523,11 @@ func c14RaceMain(args []string) int {
 				meta.count("comment/downtime lists that do not fit the backend")
 			}
 			meta.Histogram["comment/downtime lists checked"] += res.ListTotal
+			if len(res.WaitBad) > 0 {
+				observed = append(observed, "waits")
+				meta.count("answers of WaitTrigger requests that do not meet their WaitCondition")
+			}
+			meta.Histogram["WaitTrigger requests that really waited"] += res.WaitTotal
 			updates := 0
 			for key, val := range res.Hist {
 				if strings.HasPrefix(key, "update:") {
@@ -528,6 +545,7 @@ func c14RaceMain(args []string) int {
 		meta.count(fmt.Sprintf("peers=%d", sc.Peers))
 		meta.count(fmt.Sprintf("epochs=%v", sc.Epochs))
 		meta.count(fmt.Sprintf("static comments/downtimes=%v", sc.StaticCD))
+		meta.count(fmt.Sprintf("waits for arriving check results=%v", sc.Waits))
 		if len(sc.Probes) > 0 {
 			meta.count("scenarios with requests reported by the lock coverage matrix")
 		}
